@@ -300,3 +300,33 @@ def _horizontal_paint(model: Model, rep: Report) -> None:
     r7.check(ok, site(f), f.qualname, f"first run: {n1} pixels of the current colour; second run: {n2} pixels of the opposite colour; both stop at the end of the row", why="run loops changed")
     hz = model.func(C + "CCITTG4Parser._parse_horiz2")
     r7.check(f"self._do_horizontal(self._n1,self._n2)" in "".join(unparse(hz.node).split()), site(hz), hz.qualname, "the two accumulated run lengths are painted in order (first, second)", why="call changed")
+
+
+def _decoder_state(model: Model, rep: Report) -> None:
+    """C19-R10: one decoder per image: the row buffers and the output buffer are instance state.  A mutable object of the
+    class body that a method updates (`self._buf += ...` on a class-level bytearray) is one object for every decoder of the
+    process - the second image comes back with the rows of the first in front of its own."""
+    from .c12 import global_writes, inventory
+
+    r = rep.rule("C19-R10", "EFFECTS", "the CCITT decoder classes keep nothing mutable at class level that a method writes: row and output buffers are per image (instance attributes bound in __init__ / reset)", 3)
+    inv = inventory(model)
+    writes = [(f, n, c, how) for (f, n, c, how) in global_writes(model, inv) if c.startswith("pdfminer.ccitt.")]
+    for (f, n, c, how) in writes:
+        r.violation(site(f, n), f.qualname, f"{unparse(n)[:70]} : {how} on the class-level object {c.split('.')[-2]}.{c.split('.')[-1]}", "the object is created once in the class body and shared by every decoder of the process: the second decode returns the first image's rows followed by its own")
+    n_cls = 0
+    for cq, ci in sorted(model.classes.items()):
+        if not cq.startswith("pdfminer.ccitt.") or ci.name.startswith("Test"):
+            continue
+        n_cls += 1
+        if not any(c.rsplit(".", 1)[0] == cq for (_, _, c, _) in writes):
+            r.ok(f"pdfminer/ccitt.py:{ci.node.lineno}:{ci.name}", cq, f"{ci.name}: no class-level mutable object is written by a method")
+    if n_cls < 3:
+        raise AnchorMissing("CCITT decoder classes not found")
+
+
+_run_r1_r9 = run
+
+
+def run(model: Model, rep: Report) -> None:  # noqa: F811
+    _run_r1_r9(model, rep)
+    _decoder_state(model, rep)
